@@ -71,6 +71,9 @@ class C04(Check):
                 # the bounds in another unit notation (default unit stays s, so the time-stamps are unchanged)
                 c['unit_style'] = [rng.choice(['both', 'begin', 'end']), rng.randrange(1 << 30)]
             cases.append(c)
+        # division, pow, sqrt, exp, ln, log (exact by construction of the signals)
+        for (f, sigs) in dense.fancy_cases(rng, 40 if tier == 'quick' else 600):
+            cases.append({'f': f, 'nv': 2, 'sigs': sigs, 'n': max(len(x) for x in sigs)})
         # the merge itself, called directly: intersection(a, b, method) against DenseMerge.isect
         nm = 300 if tier == 'quick' else 6000
         for i in range(nm):
